@@ -22,7 +22,7 @@ from verif.mc import pool as P
 LEVEL = "model_checking"
 REMOVABLE = ["script", "style", "noscript", "iframe", "object", "embed", "applet"]
 RAW = {"script", "style"}
-CONTEXTS = ["body", "div", "td", "li"]
+CONTEXTS = ["body", "div", "td", "li", "sib"]     # sib: the removed element follows an already closed inline sibling
 # content alphabet (19 symbols). "<n1>" = nested raw-text removable, "<n2>" = nested ordinary removable
 SIGMA = ["<p>", "</p>", "<span>", "</span>", "<td>", "</td>", "<img>", "<img/>", "<br>", "<br/>",
          "<n1>", "</n1>", "<n2>", "</n2>", "<r>", "</r>", "T", "C", "D"]
@@ -127,6 +127,10 @@ def render_body(case, tk: Tokens, xhtml=False):
         body = f"<p>{v0}</p><ul><li>{core}</li></ul><p>{v3}</p>"
     elif ctx == "td":
         body = f"<p>{v0}</p><table><tr><td>{core}</td></tr></table><p>{v3}</p>"
+    elif ctx == "sib":
+        vs = tk.new("B")
+        body = f"<p>{v0}</p><div><span>{v1}</span><!--{xc}-->{inner} {v2} <span>{vs}</span></div><p>{v3}</p>"
+        return body, [v0, v1, v2, vs, v3], hidden
     else:
         raise ValueError(ctx)
     return body, [v0, v1, v2, v3], hidden
